@@ -18,7 +18,7 @@ LEVEL = "exploration"
 TECHNIQUE = "every point of the option lattice (format x mapping x copier-header x -D defines) visited for Hypothesis-seeded generated programs valid under the chosen mapping, through Program.assemble, Program.assemble_as_patch, the in-process CLI and real `python -m a816.cli` subprocesses; differential against the in-memory API (itself cross-checked against the reference assembler) with an independent IPS reader"
 RULE = (
     "programs generated for one mapping (low 00-6F/80-CF, low2 80-FF, high 40-7D/C0-FF; addresses drawn from that mapping) that use 0-3 -D names in data, sized operands and conditions, run through every "
-    "(format in {ips,sfc}) x (copier header off/on) point and every entry point (assemble, assemble_as_patch, in-process cli_main; real subprocess for 1 program in 10).  Oracle: reference = in-memory API with the same rom type "
+    "(format in {ips,sfc}) x (copier header off/on) point, under a varying environment (LF / CR LF / CR source files, main source in a sub-directory with decoy files beside it, an existing longer output file, --dump-symbols / --verbose), and every entry point (assemble, assemble_as_patch, in-process cli_main; real subprocess for 1 program in 10).  Oracle: reference = in-memory API with the same rom type "
     "and the defines as integer symbols, required to equal vlib/model/refasm.py under the textbook bus; IPS output parsed by vlib/model/ips.py == reference blocks (+0x200 with the copier header); SFC bytes == reference image on zeros; "
     "exit status / return value 0; the exported symbol file lists each label defined outside loop iterations exactly once as bank:offset name and no entry under a name that is not a label of the program.  Non-trivial = a lattice point other than (ips, low, off, no defines) on a program with >=2 blocks; "
     "distinct = distinct (program, lattice point, entry) tuples."
@@ -159,6 +159,18 @@ def run_case(case) -> Outcome:
 
     points = [(fmt, cop) for fmt in ("ips", "sfc") for cop in (False, True)]
     nt = 0
+    # the environment of the file front ends varies too (the in-memory reference never sees it): line ends of the source
+    # files, the main source in a sub-directory with decoy files of the same names beside it, an output file that already
+    # exists and is longer than the new output, the symbol dump / verbose options
+    erng = random.Random((case.get("join_seed") or 0) * 31 + len(src))
+
+    def environment():
+        k = erng.random()
+        if k < 0.4:
+            return {}
+        return {"newline": erng.choice(["lf", "lf", "crlf", "cr"]), "subdir": erng.random() < 0.4,
+                "preexisting": erng.choice([0, 0, 7, 5000, 300000]), "dump": erng.random() < 0.3, "verbose": erng.random() < 0.2}
+
     for fmt, cop in points:
         sub = dict(case, only=[fmt, cop])
         if case.get("only") and case["only"] != [fmt, cop]:
@@ -166,7 +178,11 @@ def run_case(case) -> Outcome:
         nontrivial_point = not (fmt == "ips" and rom == "low" and not cop and not defines) and nblocks >= 2
         # ---- file APIs
         if not (fmt == "sfc" and cop):
-            r = driver.assemble_file_api(src, fmt=fmt, mapping=rom, copier=cop, files=allfiles, defines=defines, symfile=True)
+            fenv = environment()
+            if any(fenv.values()):
+                out.labels.append("environment-varied")
+            r = driver.assemble_file_api(src, fmt=fmt, mapping=rom, copier=cop, files=allfiles, defines=defines, symfile=True, env=fenv)
+            sub = dict(sub, env=fenv)
             out.evals += 1
             nt += nontrivial_point
             tag = f"api-{'assemble' if fmt == 'sfc' else 'assemble_as_patch'}"
@@ -198,7 +214,9 @@ def run_case(case) -> Outcome:
                             out.bad("symfile:extra-entry", sub, f"the symbol file lists {extra[:4]}, which are not label definitions of the program (labels: {sorted(known)[:12]})\n{src}")
         # ---- command line
         argv = ["-f", fmt, "-m", rom] + (["--copier-header"] if cop else []) + dargs
-        runs = [("cli", driver.cli_inproc(argv, src, files=allfiles))]
+        cenv = environment()
+        runs = [("cli", driver.cli_inproc(argv, src, files=allfiles, env=cenv))]
+        sub = dict(sub, env=cenv)
         if case.get("sub"):
             runs.append(("cli-subprocess", driver.cli_subprocess(argv, src, files=allfiles)))
         for tag, r in runs:
